@@ -370,7 +370,7 @@ class Norm:
         if isinstance(inner, tuple) and inner:
             if inner[0] in ("MACST", "HST", "MAC", "H", "CIPHER", "HKDF", "PBKDF2", "ARGON2", "AEADKEY", "MACKEY",
                             "b", "sl", "cat", "in", "ENC", "AEAD_TAG", "AWSKEY", "HKDFOKM", "SIG", "RNG", "W",
-                            "XPUB", "EDPUB", "DH", "XSK", "PUB", "PARSEPT", "P384SK", "ENCPUB", "RSAENC", "SETBYTE", "INT", "TOBE", "LEFTPAD"):
+                            "XPUB", "EDPUB", "DH", "XSK", "PUB", "PARSEPT", "P384SK", "ENCPUB", "RSAENC", "SETBYTE", "INT", "TOBE", "LEFTPAD", "NARROW", "ARGON2ID13", "BE"):
                 return inner
             if inner[0] == "call":
                 return ("ok", inner)
@@ -616,9 +616,28 @@ class Norm:
             return ("VERIFY", "sodium_compare", args[0], args[1])
         if name == "libsodium_rs::crypto_pwhash::pwhash":
             outlen, pw, salt, ops, mem, algid = args
-            return ("ARGON2", "sodium", pw, salt, mem, ops, outlen[1] if isinstance(outlen, tuple) and outlen[0] == "int" else outlen, algid)
+            ol = outlen[1] if isinstance(outlen, tuple) and outlen[0] == "int" else outlen
+            mem = self.unok(mem)
+            if isinstance(mem, tuple) and mem[0] == "NARROW":
+                mem = mem[1]
+            if algid == ("int", 2):
+                # libsodium fixes parallelism to 1 (the caller guards para == 1)
+                return ("ARGON2ID13", pw, salt, ("MEMBYTES", mem), ops, ("int", 1), ol)
+            return ("ARGON2", "sodium", pw, salt, mem, ops, ol, algid)
         if name == "argon2::Argon2::<'_>::hash_password_into#out":
+            a = self.argon2_params(args[0])
+            if a is not None:
+                mem, time, para = a
+                return ("ARGON2ID13", args[1], args[2], mem, time, para, self._outw(orig))
             return ("ARGON2", "rustcrypto", args[1], args[2], args[0], self._outw(orig))
+        m = re.match(r"zerocopy::byteorder::U(32|64)::<BigEndian>::get$", name)
+        if m:
+            return ("BE", int(m.group(1)), a0)
+        if name in ("core::convert::num::<impl From<u32> for u64>::from",):
+            return a0
+        if name in ("core::convert::num::<impl TryFrom<u64> for u32>::try_from",
+                    "core::convert::num::ptr_try_from_impls::<impl TryFrom<u64> for usize>::try_from"):
+            return ("NARROW", a0)
         if name == "Option::ok_or" or name == "Result::map_err":
             return a0
         r = self.sigcall(name, args)
@@ -826,6 +845,32 @@ class Norm:
         if isinstance(st, tuple) and st and st[0] == "H":
             return ("digest", st[1], st[2])
         return ("digest?", st)
+
+    def argon2_params(self, a):
+        """Argon2::new(Argon2id, V0x13, ok(build(t_cost(p_cost(m_cost(new(), M), P), T)))) -> (mem, time, para)"""
+        try:
+            if not (a[0] == "call" and a[1] == "argon2::Argon2::<'_>::new"):
+                return None
+            alg, ver, params = a[2]
+            if "Argon2id" not in repr(alg) or "V0x13" not in repr(ver):
+                return None
+            b = self.unok(params)
+            assert b[1] == "argon2::params::ParamsBuilder::build"
+            tcost = b[2][0]; assert tcost[1] == "argon2::params::ParamsBuilder::t_cost"
+            pcost = tcost[2][0]; assert pcost[1] == "argon2::params::ParamsBuilder::p_cost"
+            mcost = pcost[2][0]; assert mcost[1] == "argon2::params::ParamsBuilder::m_cost"
+            assert mcost[2][0] == ("call", "argon2::params::ParamsBuilder::new", ())
+            mem = self.unok(mcost[2][1])
+            if isinstance(mem, tuple) and mem[0] == "NARROW":
+                mem = mem[1]
+            # KiB = bytes / 1024 (the caller guards divisibility)
+            if isinstance(mem, tuple) and mem[0] == "binop" and mem[1] == "Div" and mem[3] == ("int", 1024):
+                mem = ("MEMBYTES", mem[2])
+            else:
+                mem = ("MEMKIB", mem)
+            return mem, tcost[2][1], pcost[2][1]
+        except Exception:
+            return None
 
     def _outw(self, orig):
         a = orig[2]
